@@ -188,6 +188,36 @@ func (r *lifeRun) step(op LOp) error {
 		if !r.waitBlocked() {
 			return fmt.Errorf("after accepting a connection the loop did not return to Accept")
 		}
+	case "connect-expiry":
+		// a connection and an accept-timeout expiry queued back to back: the loop finds the expiry immediately
+		// after it has accepted the connection, possibly before that connection's handler has started
+		if !r.serving || r.timeout == 0 {
+			return nil
+		}
+		c := r.fake.Connect()
+		r.fake.InjectTimeout()
+		lc := &lifeConn{c: c, id: r.nextID}
+		r.nextID++
+		r.open = append(r.open, lc)
+		r.facts["connect-expiry"]++
+		r.facts["expiry-busy"]++
+		dl := time.Now().Add(r.bound)
+		for !(r.svc.VerifActiveConnections() == int64(len(r.open)) && r.fake.Blocked() && r.fake.Pending() == 0) {
+			if e, ok := r.returned(); ok {
+				return fmt.Errorf("an accept-timeout expiry right after a connection was accepted stopped the service (returned %v) although that connection is open", e)
+			}
+			if r.fake.IsClosed() {
+				return fmt.Errorf("an accept-timeout expiry right after a connection was accepted made the service release its listener (stop serving) although that connection is open")
+			}
+			if time.Now().After(dl) {
+				return fmt.Errorf("after connection + expiry the loop did not settle in Accept with %d accounted connections (count %d)", len(r.open), r.svc.VerifActiveConnections())
+			}
+			time.Sleep(50 * time.Microsecond)
+		}
+		if e, ok := r.returned(); ok {
+			return fmt.Errorf("an accept-timeout expiry right after a connection was accepted stopped the service (returned %v) although that connection is open", e)
+		}
+		return r.callOn(lc)
 	case "call":
 		k := pick()
 		if k < 0 || !running {
@@ -246,6 +276,9 @@ func (r *lifeRun) step(op LOp) error {
 		for !(atomic.LoadInt32(&r.fake.AcceptN) > acceptsBefore && r.fake.Blocked()) {
 			if e, ok := r.returned(); ok {
 				return fmt.Errorf("an accept-timeout expiry stopped the service (returned %v) although %d connection(s) are open", e, len(r.open))
+			}
+			if r.fake.IsClosed() {
+				return fmt.Errorf("an accept-timeout expiry made the service release its listener (stop serving) although %d connection(s) are open", len(r.open))
 			}
 			if time.Now().After(dl) {
 				return fmt.Errorf("after an accept-timeout expiry with open connections the loop did not return to Accept")
